@@ -59,3 +59,11 @@ Definition consensus_spread_sq (col : list Q) : Q :=
 (* ---- sortedness of a table (GenomicArray.sort order is given by a boolean "not after") ---------- *)
 Definition sorted_by {A} (leb : A -> A -> bool) (l : list A) : Prop :=
   StronglySorted (fun a b => leb a b = true) l.
+
+(* the depth column: the same location estimator over the samples' depths alone (no pseudo-sample); one sample's
+   depth is that sample's depth *)
+Definition consensus_depth (dcol : list Q) : Q :=
+  match dcol with
+  | [x] => x
+  | _ => biweight_location_spec 6 eps_1e3 5 dcol
+  end.
